@@ -7,6 +7,13 @@ ops
     "name":str|null,"interp":bool}` → `{"ok":D}` | `{"error":"unknownEnv"}`   (`environmentForNode`)
 * `{"op":"withname", ... same ..., "expand":bool,"remove":bool}`               (`environmentWithName`)
 * `{"op":"subst","kind":"T"|"E","map":D,"s":str}` → `{"out":str}`  (`Template.safe_substitute` / `expandvars`)
+* `{"op":"session","sys":D,"envs":…,"platform":str,"launch":D,"calls":[C,...]}` → `{"answers":[A,...]}`:
+  one configuration object serves the calls one after the other (`runCalls`, the state is threaded through `step`);
+  `C` = `{"op":"node","name":str|null,"interp":bool}` | `{"op":"withname","name":…,"expand":bool,"remove":bool}`
+  | `{"op":"default"}` | `{"op":"mutate","edits":D}`; `A` = `{"ok":D}` | `{"error":…}` | `null` (mutate)
+`node`, `withname` and `session` take an optional `"primitive":bool` (default true); when false the object reads
+the instance document of the platform (`instEnvs`, `FlowIRConcrete.instance` through `replicate()`); with
+`"reload":true` in addition the instance document was stored and loaded again (instance directory).
 `D` = `[[key,value],...]`.  Environment names in `envs` are spelled as in the document
 (the model lower-cases them like `FlowIR.from_dict`).
 -/
@@ -39,13 +46,44 @@ def resJson : Except Err Dict → Json
   | .ok d => jobj [("ok", dictJson d)]
   | .error .unknownEnv => jobj [("error", jstr "unknownEnv")]
 
+def getPrimitive (j : Json) : Bool :=
+  match j.getObjVal? "primitive" with
+  | .ok (Json.bool b) => b
+  | _ => true
+
+def getReload (j : Json) : Bool :=
+  match j.getObjVal? "reload" with
+  | .ok (Json.bool b) => b
+  | _ => false
+
+def parseCall (j : Json) : Except String Call := do
+  let op ← getStr j "op"
+  match op with
+  | "node" => return .node ((← getOptStr j "name").map String.toList) (← getBool j "interp")
+  | "withname" =>
+    return .withName ((← getOptStr j "name").map String.toList) (← getBool j "expand") (← getBool j "remove")
+  | "default" => return .dflt
+  | "mutate" => return .mutate (← parseDict (← j.getObjVal? "edits"))
+  | _ => throw s!"unknown call {op}"
+
+def ansJson : Ans → Json
+  | .env r => resJson r
+  | .unit => Json.null
+
 def handle (j : Json) : Except String Json := do
   let op ← getStr j "op"
   match op with
+  | "session" =>
+    let sys ← parseDict (← j.getObjVal? "sys")
+    let plat ← getChars j "platform"
+    let envs := confEnvs (loadEnvs (← parseEnvs (← j.getObjVal? "envs"))) plat (getPrimitive j) (getReload j)
+    let launch ← parseDict (← j.getObjVal? "launch")
+    let calls ← (← getArr j "calls").mapM parseCall
+    return jobj [("answers", jarr ((runCalls launch ⟨sys, envs, plat⟩ calls).map ansJson))]
   | "node" | "withname" =>
     let sys ← parseDict (← j.getObjVal? "sys")
-    let envs := loadEnvs (← parseEnvs (← j.getObjVal? "envs"))
     let plat ← getChars j "platform"
+    let envs := confEnvs (loadEnvs (← parseEnvs (← j.getObjVal? "envs"))) plat (getPrimitive j) (getReload j)
     let launch ← parseDict (← j.getObjVal? "launch")
     let name := (← getOptStr j "name").map String.toList
     if op == "node" then
